@@ -108,6 +108,33 @@ class C01(PropCheck):
                 found.append({'what': what, 'input': {'doc': pm_corr.doc_json(small), 'html': pm.doc_html(small)},
                               'signature': 'pm-conservation'})
                 break
+        if found:
+            return found
+        # the stage-2 grammars (out-of-flow children, footnotes, columns): documents on which the code left the model
+        from vlib import lean
+        sections = sorted({f['name'] for f in failures if f['name'] in pm_stage2.SECTIONS}) or [
+            'pm-oof-documents', 'pm-foot-documents', 'pm-col-documents']
+        for section in sections:
+            module = pm_stage2.corr(section)
+            gen = {pm_oof_corr: lambda r: pm_oof_corr.pm_oof.gen_doc(r), pm_foot_corr: pm_foot_corr.pm_foot.gen_doc,
+                   pm_col_corr: lambda r: pm_col_corr.pm_col.gen_doc(r)}[module]
+            line_of = {pm_oof_corr: pm_oof_corr.pm_oof.doc_line, pm_foot_corr: pm_foot_corr.pm_foot.doc_line,
+                       pm_col_corr: pm_col_corr.pm_col.doc_line}[module]
+            batch = [gen(rng) for _ in range(run.n(250, 2500))]
+            real = [module.real_line(doc) for doc in batch]
+            model = lean.run_driver(self.driver, [line_of(doc) for doc in batch])
+            run.search_stats['evaluations'] += len(batch)
+            for doc, out, ref in zip(batch, real, model):
+                if out == ref or out.startswith('err:'):
+                    continue
+                what = pm_stage2.conservation(section, doc, out, ref)
+                if what:
+                    found.append({'what': what, 'signature': section,
+                                  'input': {'section': section, 'meta': {'doc': module.doc_json(doc)},
+                                            'line': line_of(doc)}})
+                    break
+            if found:
+                break
         return found
 
     def finding_replays(self):
